@@ -25,6 +25,9 @@ let gop_of_char = function 's' -> C19_FinOk | 'f' -> C19_FinFail | 't' -> C19_Th
 let char_of_gop = function C19_FinOk -> 's' | C19_FinFail -> 'f' | C19_Throw -> 't' | C19_React -> 'r'
 let outcome_of_char = function 'o' -> C19_Ok | 't' -> C19_Throws | 'f' -> C19_ReportsFailure | c -> failwith (Printf.sprintf "outcome %c" c)
 let script_of_string s = if s = "-" then [] else List.map gop_of_char (chars s)
+(* what the impl driver really calls: finalize() without argument at even positions, finalize(true) at odd ones *)
+let script_as_called s = List.mapi (fun i o -> if o = C19_FinOk && i mod 2 = 0 then C19_FinDefault else o) (script_of_string s)
+let ctor_arg kind act = if kind <> "" && Char.lowercase_ascii kind.[0] = kind.[0] then None else Some act
 (* gr = rank of the process inside the guard's communicator (printed in the MPIGuardError message) *)
 let exit_str gr = function
   | C19_Normal -> "N"
@@ -32,13 +35,15 @@ let exit_str gr = function
   | C19_UserExc pc -> Printf.sprintf "U%d" (int_of_nat pc)
 let obs_str gr (e, n) = (match e with Some e -> exit_str gr e | None -> "STUCK") ^ ":" ^ string_of_int (int_of_nat n)
 
+(* world ranks grouped by colour: the extracted C19_Model.c19_groups *)
+let groups_of colors p =
+  List.map (List.map int_of_nat) (c19_groups (List.map (fun c -> nat_of_int (Char.code c)) (Array.to_list colors)))
+
 let guard_case t =
   let p = int_of_string t.(1) and act = t.(3) = "1" and colors = Array.of_list (chars t.(4)) and mode = t.(5) in
   let outs = Array.of_list (split ',' t.(6)) and scripts = Array.of_list (split ',' t.(7)) in
   let res = Array.make p "?" and spec = Array.make p "-" in
-  let cols = List.sort_uniq compare (Array.to_list colors) in
-  List.iter (fun c ->
-    let members = List.filter (fun r -> colors.(r) = c) (List.init p (fun r -> r)) in
+  List.iter (fun members ->
     let sc = List.map (fun r -> script_of_string scripts.(r)) members in
     let r =
       if mode = "S" then begin
@@ -49,11 +54,60 @@ let guard_case t =
         List.iteri (fun i r -> let (e, n) = c19_spec_exit act (nat_of_int nsec) os (nat_of_int i) in
                      spec.(r) <- obs_str i (Some e, n)) members;
         c19_sections_run act os
-      end else c19_guard_scope act sc in
+      end else c19_guard_scope_ctor (ctor_arg t.(2) act) (List.map (fun r -> script_as_called scripts.(r)) members) in
     (match r with
      | C19_Finished l | C19_Deadlock l -> List.iteri (fun i (r, o) -> res.(r) <- obs_str i o) (List.combine members l)
-     | C19_OutOfFuel -> List.iter (fun r -> res.(r) <- "OUTOFFUEL") members)) cols;
+     | C19_OutOfFuel -> List.iter (fun r -> res.(r) <- "OUTOFFUEL") members)) (groups_of colors p);
   String.concat "|" (Array.to_list res) ^ " ## " ^ (if mode = "S" then String.concat "|" (Array.to_list spec) else "-")
+
+(* Q P kind acts colors outs scripts : several scopes one after the other (';' separated per rank) *)
+let seq_case t =
+  let p = int_of_string t.(1) and acts = chars t.(3) and colors = Array.of_list (chars t.(4)) in
+  let outs = Array.of_list (List.map (split ';') (split ',' t.(5))) and scripts = Array.of_list (List.map (split ';') (split ',' t.(6))) in
+  let nsc = List.length acts in
+  let res = Array.make_matrix p nsc "?" and spec = Array.make_matrix p nsc "?" in
+  List.iter (fun members ->
+    let scopes = List.mapi (fun j a -> (a = '1', List.map (fun r -> List.map outcome_of_char (chars (List.nth outs.(r) j))) members)) acts in
+    List.iteri (fun j (a, os) -> List.iter2 (fun r o ->
+        if c19_script a o <> script_of_string (List.nth scripts.(r) j) then failwith "SCRIPT-MISMATCH") members os) scopes;
+    let rs = c19_scopes_run scopes in
+    List.iteri (fun j g ->
+      let (a, os) = List.nth scopes j in
+      let nsec = (match os with o :: _ -> List.length o | [] -> 0) in
+      (match g with
+       | C19_Finished l | C19_Deadlock l -> List.iteri (fun i (r, o) -> res.(r).(j) <- obs_str i o) (List.combine members l)
+       | C19_OutOfFuel -> List.iter (fun r -> res.(r).(j) <- "OUTOFFUEL") members);
+      List.iteri (fun i r -> let (e, n) = c19_spec_exit a (nat_of_int nsec) os (nat_of_int i) in spec.(r).(j) <- obs_str i (Some e, n)) members) rs)
+    (groups_of colors p);
+  let row a = String.concat ";" (Array.to_list a) in
+  String.concat "|" (List.map row (Array.to_list res)) ^ " ## " ^ String.concat "|" (List.map row (Array.to_list spec))
+
+(* N P colors S outs scripts : inner guards on the split communicators inside an outer guard on the world communicator *)
+let nested_case t =
+  let p = int_of_string t.(1) and colors = Array.of_list (chars t.(2)) and nsec = int_of_string t.(3) in
+  let outs = Array.of_list (split ',' t.(4)) and scripts = Array.of_list (split ',' t.(5)) in
+  let gs = groups_of colors p in
+  let groups = List.map (List.map (fun r -> List.map outcome_of_char (chars outs.(r)))) gs in
+  List.iter2 (fun members os -> List.iter2 (fun r o -> if c19_script true o <> script_of_string scripts.(r) then failwith "SCRIPT-MISMATCH") members os) gs groups;
+  let order = List.concat gs in     (* position in the outer list -> world rank *)
+  let outer_str r (e, n) = (match e with
+      | Some C19_Normal -> "N" | Some (C19_GuardError (_, ne)) -> Printf.sprintf "G0e%dr%d" (int_of_nat ne) r
+      | Some (C19_UserExc _) -> "P" | None -> "STUCK") ^ ":" ^ string_of_int (int_of_nat n) in
+  let (inner, outer) = c19_nested_run groups in
+  let res = Array.make p "?" and spec = Array.make p "?" in
+  let inner_s = Array.make p "?" in
+  List.iter2 (fun members g -> match g with
+      | C19_Finished l | C19_Deadlock l -> List.iteri (fun i (r, o) -> inner_s.(r) <- obs_str i o) (List.combine members l)
+      | C19_OutOfFuel -> List.iter (fun r -> inner_s.(r) <- "OUTOFFUEL") members) gs inner;
+  (match outer with
+   | C19_Finished l | C19_Deadlock l when List.length l = p -> List.iter2 (fun r o -> res.(r) <- inner_s.(r) ^ "/" ^ outer_str r o) order l
+   | _ -> List.iter (fun r -> res.(r) <- inner_s.(r) ^ "/STUCK:0") order);
+  (* spec: C19_nested's right-hand side *)
+  let oo = c19_outer_outs (nat_of_int nsec) groups in
+  List.iter2 (fun members os -> List.iteri (fun i r ->
+      let (e, n) = c19_spec_exit true (nat_of_int nsec) os (nat_of_int i) in spec.(r) <- obs_str i (Some e, n)) members) gs groups;
+  List.iteri (fun i r -> let (e, n) = c19_spec_exit true (S O) oo (nat_of_int i) in spec.(r) <- spec.(r) ^ "/" ^ outer_str r (Some e, n)) order;
+  String.concat "|" (Array.to_list res) ^ " ## " ^ String.concat "|" (Array.to_list spec)
 
 (* ---------------------------------------------------------------- futures *)
 let fop_of_char = function 'v' -> C19_Valid | 'r' -> C19_Ready | 'w' -> C19_Wait | 'g' -> C19_Get | 'm' -> C19_Move
@@ -90,10 +144,10 @@ let future_case t impl_line =
   let nops = List.length ops in
   let len = (match pay with "i" | "j" -> 1 | "v" | "w" | "q" | "F" -> 3 | "L" -> 3000 | _ -> 0) in
   let kind = (match pay with "i" | "v" | "q" | "F" | "L" -> C19_BValue | "j" | "w" -> C19_BRef | _ -> C19_BVoid) in
-  (* type-erased Dune::Future<R> owns the MPIFuture through a unique_ptr: moving it always empties the source *)
-  let kind = if t.(5) = "e" then C19_BValue else kind in
+  let erased = t.(5) = "e" in
   let rec prefix = function ('w' | 'g' | 'd') :: _ -> 0 | _ :: r -> 1 + prefix r | [] -> 0 in
-  let start_exc = (fam = "N" && (op = "isend" || op = "irecv")) || pay = "z" in
+  let start_exc = (match op with "default" | "mkvalid" | "efuture" -> false
+                            | _ -> c19_start_rejected (if fam = "N" then C19_FamSeq else C19_FamMPI) (nbop_of_string op) (nat_of_int (if pay = "z" then 0 else max len 1))) in
   let k = prefix order in
   let impl_ranks = (match impl_line with Some l -> Array.of_list (List.map String.trim (split '|' l)) | None -> [||]) in
   let per_rank r =
@@ -109,15 +163,18 @@ let future_case t impl_line =
     let sv = data_str (List.nth ins re) in
     let is_dep = late >= 0 && r < String.length dep && dep.[r] = '1' in
     let traces =
-      if op = "efuture" then [c19_ptrace ops { c19_pvalid = false; c19_pdata = v }]   (* empty Dune::Future<T>: every call but valid() throws *)
+      if op = "efuture" then [c19_etrace c19_cfg_fixed kind v (List.map (fun o -> C19_EvOp o) ops) None]   (* empty Dune::Future<T> *)
       else if fam = "N" then [c19_ptrace ops { c19_pvalid = (op <> "default"); c19_pdata = v }]
-      else if op = "default" then [c19_ftrace c19_cfg_fixed kind v (List.map (fun o -> C19_EvOp o) ops) c19_fut_default]
-      else if op = "mkvalid" then [c19_ftrace c19_cfg_fixed kind v (List.map (fun o -> C19_EvOp o) ops) (c19_fut_prevalid v)]
+      else if op = "default" || op = "mkvalid" then begin
+        let f = c19_fut_ctor (if op = "default" then None else Some true) v in
+        let h = List.map (fun o -> C19_EvOp o) ops in
+        [if erased then c19_etrace c19_cfg_fixed kind v h (Some f) else c19_ftrace c19_cfg_fixed kind v h f] end
       else List.filter_map (fun c -> if is_dep && c < k then None
-                             else Some (c19_ftrace c19_cfg_fixed kind v (c19_history ops (nat_of_int c)) (c19_fut_started "[stale]")))
+                             else let h = c19_history ops (nat_of_int c) and f = c19_fut_started "[stale]" in
+                               Some (if erased then c19_etrace c19_cfg_fixed kind v h (Some f) else c19_ftrace c19_cfg_fixed kind v h f))
              (List.init (nops + 2) (fun c -> c)) in
     (* type-erased wrapper around a PseudoFuture: the wrapper (unique_ptr) is what is moved, its source is emptied *)
-    let traces = if t.(5) = "e" then List.map (List.map (function C19_TOp ((C19_Move | C19_MoveAssign) as o, C19_RBool _) -> C19_TOp (o, C19_RBool false) | x -> x)) traces else traces in
+    let traces = if erased && fam = "N" && op <> "efuture" then List.map (List.map (function C19_TOp ((C19_Move | C19_MoveAssign) as o, C19_RBool _) -> C19_TOp (o, C19_RBool false) | x -> x)) traces else traces in
     let set = if start_exc then ["START-EXC(ParallelError)"] else List.sort_uniq compare (List.map (trace_str sv) traces) in
     let verdict =
       if r >= Array.length impl_ranks then None
@@ -157,6 +214,8 @@ let () =
     let t = Array.of_list (List.filter (fun s -> s <> "") (split ' ' line)) in
     let out = (try (match t.(0) with
         | "G" -> guard_case t
+        | "Q" -> seq_case t
+        | "N" -> nested_case t
         | "F" -> future_case t il
         | _ -> "UNKNOWN-CASE ## -")
       with Failure m -> "MODEL-ERROR " ^ m ^ " ## -" | Invalid_argument m -> "MODEL-ERROR " ^ m ^ " ## -") in
